@@ -246,8 +246,11 @@ impl<T: RealNumber, M: Matrix<T>> ElasticNet<T, M> {
         let col_mean = x.mean(0);
         let col_std = x.std(0);
 
+        let (n, _) = x.shape();
         for i in 0..col_std.len() {
-            if (col_std[i] - T::zero()).abs() < T::epsilon() {
+            // the computed std of a constant column is rounding noise, not necessarily below epsilon
+            let constant = (1..n).all(|r| x.get(r, i) == x.get(0, i));
+            if constant || col_std[i].is_nan() || (col_std[i] - T::zero()).abs() < T::epsilon() {
                 return Err(Failed::fit(&format!(
                     "Cannot rescale constant column {}",
                     i
@@ -266,9 +269,12 @@ impl<T: RealNumber, M: Matrix<T>> ElasticNet<T, M> {
         let gamma = T::one() / (T::one() + l2_reg).sqrt();
         let padding = gamma * l2_reg.sqrt();
 
+        // centre the real targets first: the zero padding must stay zero and the mean removed by the
+        // optimizer must be mean(y), not the mean of the padded vector
+        let y_mean = y.mean();
         let mut y2 = M::RowVector::zeros(n + p);
         for i in 0..y.len() {
-            y2.set(i, y.get(i));
+            y2.set(i, y.get(i) - y_mean);
         }
 
         let mut x2 = M::zeros(n + p, p);
